@@ -960,6 +960,12 @@ func (l *lexer) decodeUnicode() rune {
 		return stopTok
 	}
 
+	if rr > unicode.MaxRune {
+		// Beyond the last code point; encoding it would silently yield U+FFFD.
+		l.Error("invalid Unicode escape value")
+		return stopTok
+	}
+
 	return rr
 }
 
